@@ -12,7 +12,7 @@ def run(rep, scratch, tier, seed, replay=None):
     rng = random.Random(seed)
     lines, cases = [], []
     dss = [dp.Dataset("w0", [{b"a": b"1"}, {b"a": b"2", b"b": b"x"}], "tiny"), dp.shaped_dataset(rng, "w1", 1200)]
-    for i in range(3 if tier == "quick" else 20):
+    for i in range(3 if tier == "quick" else 250):
         dss.append(dp.small_dataset(rng, "w%d" % (i + 2), hostile=True))
     k = 0
     for ds in dss:
